@@ -13,6 +13,8 @@ for h in harness/vh-*/; do
   cp "${VERIF_REPO:-/repo}/Cargo.lock" "$h/Cargo.lock"
   (cd "$h" && cargo build --offline 2>&1 | tail -2)
 done
+# in-crate harness (crate-private code of s2n-quic-transport through the cfg(aws_s2n_quic_verif) hook, MANIFEST.hooks)
+python3 -c "import sys; sys.path.insert(0, 'tools'); import vlib; ok, out = vlib.incrate_build(); print('incrate', 'ok' if ok else out[-600:])" || true
 # C17 support: the crate's own loom scenarios (bounded model checking of the real code) need a --cfg loom build
 (cd "${VERIF_REPO:-/repo}" && RUSTFLAGS="--cfg s2n_internal_dev --cfg loom" CARGO_TARGET_DIR="$(cd "$OLDPWD" && pwd)/.cache/target-loom" \
    cargo test -p s2n-quic-core --offline --lib --no-run 2>&1 | tail -1) || true
